@@ -220,6 +220,11 @@ def tagTyName : Ty → String
   | .app t _ => tagTyName t
   | _ => ""
 
+/-- `&&` / `||` applied to a left operand that is not a boolean: no rule (the check happens
+    before the right operand is looked at, as in `if a { b } else { false }`) -/
+def logicalNonBool (op : BinOp) (a : Val) : Bool :=
+  (op == .and || op == .or) && !(match a with | .bool _ => true | _ => false)
+
 def bindParams : List String → List Val → Env → Env
   | x :: xs, v :: vs, ρ => bindParams xs vs ((x, v) :: ρ)
   | _, _, ρ => ρ
@@ -321,6 +326,7 @@ def eval (fuel : Nat) (P : Prog) (ρ : Env) (w : World) (e : Expr) : Res Val :=
       | .and, .bool false => .ok (.bool false) w
       | .or, .bool true => .ok (.bool true) w
       | _, _ =>
+        if logicalNonBool op a then .fail (.stuck "logical operator on a non-boolean") w else
         match eval fuel P ρ w r with
         | .fail f w => .fail f w
         | .ok b w =>
